@@ -59,7 +59,7 @@ def run(ctx):
     _run_as(c12, sub, ctx)
     # R2 / R3 — reuse C13
     sub2 = _Only(ctx, "C06-R2", ("key-constant", "key-source", "key-compare", "key-text", "value-parse", "value-text", "value-layout", "prefix-template", "prefix-key",
-                                 "separators", "kv-count-complete", "kind-new", "new-only-if-none", "G9|", "G15|", "anchor|"))
+                                 "separators", "kv-count-complete", "kv-scan-complete", "kind-new", "new-only-if-none", "G9|", "G15|", "anchor|"))
     _run_as(c13, sub2, ctx)
     sub3 = _Only(ctx, "C06-R3", ("one-span|", "same-end|", "same-shift|", "shift-span", "shift-paren", "G10|", "G14|", "inner-handles", "target-flag",
                                  "post-target-span", "post-target-first-only", "anchor-after-target", "paren-anchor-only-without-target", "literal-inner"))
